@@ -174,7 +174,20 @@ class ST:
     def _bin(self, o, op):
         if isinstance(o, ST):
             if o.shape != self.shape:
-                raise AnalysisError(f"index-level product: broadcasting between shapes {self.shape} and {o.shape} is not modelled")
+                # numpy-style broadcasting: shapes aligned on the right, an axis of size 1 (or a missing one) is repeated
+                import itertools
+                n = max(len(self.shape), len(o.shape))
+                sa = (1,) * (n - len(self.shape)) + self.shape
+                sb = (1,) * (n - len(o.shape)) + o.shape
+                if any(x != y and 1 not in (x, y) for x, y in zip(sa, sb)):
+                    raise AnalysisError(f"index-level tensor: shapes {self.shape} and {o.shape} do not broadcast")
+                out_shape = tuple(max(x, y) for x, y in zip(sa, sb))
+                data = {}
+                for ix in itertools.product(*[range(z) for z in out_shape]):
+                    ia = tuple(0 if sa[k] == 1 else ix[k] for k in range(n))[n - len(self.shape):]
+                    ib = tuple(0 if sb[k] == 1 else ix[k] for k in range(n))[n - len(o.shape):]
+                    data[ix] = op(self.data[ia], o.data[ib])
+                return ST(out_shape, data)
             return ST(self.shape, {ix: op(v, o.data[ix]) for ix, v in self.data.items()})
         return ST(self.shape, {ix: op(v, Rat.lift(o)) for ix, v in self.data.items()})
 
@@ -257,6 +270,21 @@ class ST:
             return l + r if isinstance(l, ST) else r + l
         if isinstance(op, ast.Sub) and isinstance(l, ST):
             return l - r
+        if isinstance(op, ast.Sub) and isinstance(r, ST):
+            return (r * Rat.const(-1)) + l
+        if isinstance(op, ast.Div) and isinstance(l, ST) and not isinstance(r, ST):
+            return l._bin(r, lambda a, b: a / b)
+        if isinstance(op, ast.Div) and isinstance(l, ST) and isinstance(r, ST):
+            return l._bin(r, lambda a, b: a / b)
+        if isinstance(op, ast.Pow) and isinstance(l, ST) and not isinstance(r, ST):
+            k = Rat.lift(r).const_value()
+            if k is not None and k.denominator == 1 and k >= 0:
+                return ST(l.shape, {ix: v ** int(k) for ix, v in l.data.items()})
+        return NotImplemented
+
+    def sim_unary(self, op):
+        if isinstance(op, ast.USub):
+            return self * Rat.const(-1)
         return NotImplemented
 
     def equal(self, o):
@@ -274,6 +302,68 @@ def _st_method(x, name, args, kwargs, where):
         d = int(args[0] if args else kwargs["dim"])
         d = d if d >= 0 else n + 1 + d
         return ST(x.shape[:d] + (1,) + x.shape[d:], {ix[:d] + (0,) + ix[d:]: v for ix, v in x.data.items()})
+    if name == "unflatten":
+        d = _dim(args[0] if args else kwargs["dim"], n)
+        sizes = [int(z.const_value()) if isinstance(z, Rat) else int(z) for z in (args[1] if len(args) > 1 else kwargs["sizes"])]
+        total = x.shape[d]
+        if sizes.count(-1) == 1:
+            known = 1
+            for z in sizes:
+                if z != -1:
+                    known *= z
+            sizes[sizes.index(-1)] = total // known
+        prod_ = 1
+        for z in sizes:
+            prod_ *= z
+        if prod_ != total:
+            raise AnalysisError(f"index-level tensor: unflatten sizes {sizes} do not multiply to {total}", where=where)
+        data = {}
+        for ix, v in x.data.items():
+            k, sub = ix[d], []
+            for z in reversed(sizes):
+                sub.append(k % z)
+                k //= z
+            data[ix[:d] + tuple(reversed(sub)) + ix[d + 1:]] = v
+        return ST(x.shape[:d] + tuple(sizes) + x.shape[d + 1:], data)
+    if name in ("roll", "flip"):
+        if name == "roll":
+            sh = int(args[0] if args else kwargs["shifts"])
+            d = _dim(args[1] if len(args) > 1 else kwargs.get("dims", 0), n)
+            return ST(x.shape, {ix[:d] + ((ix[d] + sh) % x.shape[d],) + ix[d + 1:]: v for ix, v in x.data.items()})
+        dims = args[0] if args else kwargs["dims"]
+        dims = [_dim(z, n) for z in (dims if isinstance(dims, (tuple, list)) else [dims])]
+        return ST(x.shape, {tuple((x.shape[k] - 1 - i) if k in dims else i for k, i in enumerate(ix)): v for ix, v in x.data.items()})
+    if name == "unbind":
+        d = _dim(args[0] if args else kwargs.get("dim", 0), n)
+        return tuple(ST(x.shape[:d] + x.shape[d + 1:], {ix[:d] + ix[d + 1:]: v for ix, v in x.data.items() if ix[d] == i})
+                     for i in range(x.shape[d]))
+    if name == "chunk":
+        k = int(args[0] if args else kwargs["chunks"])
+        d = _dim(args[1] if len(args) > 1 else kwargs.get("dim", 0), n)
+        if x.shape[d] % k:
+            raise AnalysisError("index-level tensor: chunk of an axis that does not divide evenly", where=where)
+        sz = x.shape[d] // k
+        return tuple(x.getitem(tuple([slice(None)] * d + [slice(i * sz, (i + 1) * sz)])) for i in range(k))
+    if name in ("reshape", "view"):
+        sizes = list(args[0]) if len(args) == 1 and isinstance(args[0], (tuple, list)) else list(args)
+        sizes = [int(z.const_value()) if isinstance(z, Rat) else int(z) for z in sizes]
+        import itertools
+        total = 1
+        for z in x.shape:
+            total *= z
+        if sizes.count(-1) == 1:
+            known = 1
+            for z in sizes:
+                if z != -1:
+                    known *= z
+            sizes[sizes.index(-1)] = total // known
+        flat = [x.data[ix] for ix in itertools.product(*[range(z) for z in x.shape])]
+        out = {}
+        for pos, ix in enumerate(itertools.product(*[range(z) for z in sizes])):
+            out[ix] = flat[pos]
+        if len(out) != len(flat):
+            raise AnalysisError(f"index-level tensor: reshape {x.shape} -> {sizes} changes the number of entries", where=where)
+        return ST(tuple(sizes), out)
     if name == "squeeze" and not args and "dim" not in kwargs:
         out = x
         for d in reversed(range(n)):
@@ -342,10 +432,24 @@ class _STBound:
 
 class IndexHooks(FwdHooks):
     def external_call(self, interp, dotted, args, kwargs, node, fi):
+        if dotted == "torch.is_grad_enabled":
+            return getattr(self, "grad_mode", True)
         if dotted in ("torch.bmm", "torch.matmul"):
             return _bmm(args[0], args[1], astq.loc(fi, node))
         if dotted == "torch.einsum":
             raise AnalysisError("index-level product: torch.einsum is not modelled", where=astq.loc(fi, node))
+        if dotted == "torch.cat" and args and all(isinstance(p, ST) for p in args[0]):
+            parts = list(args[0])
+            n = len(parts[0].shape)
+            d = _dim(kwargs.get("dim", args[1] if len(args) > 1 else 0), n)
+            data, lo = {}, 0
+            for p in parts:
+                if p.shape[:d] + p.shape[d + 1:] != parts[0].shape[:d] + parts[0].shape[d + 1:]:
+                    raise AnalysisError("index-level tensor: torch.cat of incompatible shapes", where=astq.loc(fi, node))
+                for ix, v in p.data.items():
+                    data[ix[:d] + (ix[d] + lo,) + ix[d + 1:]] = v
+                lo += p.shape[d]
+            return ST(parts[0].shape[:d] + (lo,) + parts[0].shape[d + 1:], data)
         if dotted == "torch.stack" and args and all(isinstance(p, ST) for p in args[0]):
             parts = list(args[0])
             d = int(kwargs.get("dim", args[1] if len(args) > 1 else 0))
